@@ -287,6 +287,9 @@ impl Interp {
             if self.or.forward {
                 let a = self.ex.get(slot);
                 if let Some(d) = diff_array(a, &node.t.dims, &node.t.values(), &node.t.mags(), node.exact) {
+                    if d == UNDECIDABLE {
+                        return Err(HOutcome::Discard(UNDECIDABLE.into()));
+                    }
                     let kind = if a.dimensions() != &node.t.dims[..] { "wrong-dimensions" } else { "value-mismatch" };
                     return Err(fail(kind, op_at(s), format!("step {} ({}): {}", idx, step_describe(s, &self.m), d), &self.stats));
                 }
@@ -461,6 +464,9 @@ impl Interp {
                     if want_value {
                         self.stats.grads_compared += 1;
                         if let Some(d) = diff_array(ga, &node.t.dims, v, m, self.stats.exact) {
+                            if d == UNDECIDABLE {
+                                return Err(HOutcome::Discard(UNDECIDABLE.into()));
+                            }
                             let kind = if ga.dimensions() != &node.t.dims[..] { "gradient-shape" } else { "gradient-value" };
                             return Err(mk(kind, format!("after step {} ({}): gradient of {}: {}", idx, step_describe(s, &self.m), what(), d), &self.stats));
                         }
